@@ -1107,7 +1107,7 @@ func (r *JobRun) tickOp(op *Op, i int) *Violation {
 		// a killed run (like a successful one) is not run again by the reRun handler, whatever its budget
 		r.Stats["kill_with_rerun_handler_checks"]++
 		if n := len(st.runs) - 1; n > 0 {
-			return viol("C17", "rerun", "rerun-after-kill", "cell %s: the job was killed during its first run (nothing was rejected); the reRun handler (maxRetries=%d, delay %ds) ran it again %d time(s)", cell, maxRetries, retryDelay, n)
+			return viol("C17", "rerun", "rerun-after-kill", "cell %s: the job was killed during its first run (rejected before the kill: %v); the reRun handler (maxRetries=%d, delay %ds) ran it again %d time(s)", cell, shortAll(first.singleReject), maxRetries, retryDelay, n)
 		}
 		if jobType != "fullsync" {
 			r.consumed[id] = len(d.Versions)
